@@ -370,6 +370,23 @@ impl Transaction {
         Ok(())
     }
 
+    /// The Proposition this transaction is already creating for a tuple.
+    ///
+    /// Resolve-or-create has to see its own transaction's creations (§27):
+    /// the store knows nothing of a tuple staged by an earlier clause, and two
+    /// rows for one tuple would only meet at the unique index, half-way
+    /// through the commit.
+    pub fn staged_proposition(&self, tuple_key: &str) -> Option<ElementId> {
+        self.staged
+            .iter()
+            .find_map(|(id, staged)| match &staged.row {
+                Element::Proposition(row) if staged.is_new && row.tuple_key == tuple_key => {
+                    Some(*id)
+                }
+                _ => None,
+            })
+    }
+
     /// Loads an existing element for modification, or returns the staged copy.
     ///
     /// Read-your-writes inside the transaction (§27): a clause that reads an
